@@ -293,6 +293,28 @@ func main() {
 				}
 			}
 		}
+		// (b3) patterns in which a tag occurs more than once (Pattern allows it; only Mux registration refuses it),
+		// against names that give the repeated tag the same or different values: the map Values returns holds
+		// exactly the tags of the pattern, and substituting it back must replace EVERY occurrence
+		for _, p := range []string{"$a.$a", "$a.x.$a", "$a.$b.$a", "$a.$a.$a", "$ab.$ab", "$a.$b.$a.$b", "lib.$id.ref.$id", "$a.$a.>", "$a.*.$a"} {
+			toks := strings.Split(p, ".")
+			vals := []string{"x", "y", "$a"}
+			var rec func(i int, cur []string)
+			rec = func(i int, cur []string) {
+				if i == len(toks) {
+					add("repeated-tag", desc{p, strings.Join(cur, "."), strings.TrimPrefix(toks[0], "$"), "v"})
+					return
+				}
+				if toks[i][0] != '$' && toks[i] != "*" && toks[i] != ">" {
+					rec(i+1, append(append([]string{}, cur...), toks[i]))
+					return
+				}
+				for _, v := range vals {
+					rec(i+1, append(append([]string{}, cur...), v))
+				}
+			}
+			rec(0, nil)
+		}
 		// (c) every byte value in each position of a length-3 string for the validators
 		if o.Tier == "thorough" {
 			for pos := 0; pos < 3; pos++ {
